@@ -141,6 +141,14 @@ def _work(args):
             stime += tt
             out.append({"name": nm, "status": status, "time_s": tt, "n_vcs": len(obls),
                         "detail": detail, "model": model})
+        for cname, hyps in getattr(ex, "covers", []):
+            s = z3.Solver()
+            s.set("timeout", timeout)
+            s.add(*hyps)
+            r = s.check()
+            out.append({"name": cname, "status": "proved" if r == z3.sat else "error", "time_s": 0.0,
+                        "n_vcs": 1, "detail": "" if r == z3.sat else "cover query is %s: vacuous obligation" % r,
+                        "model": None})
         return {"family": family, "kind": kind, "function": fname, "obls": out, "error": None,
                 "havocs": sorted(set(ex.havocs))[:30], "solver_time": stime, "wall": time.time() - t0,
                 "skipped": getattr(ex, "skipped", None)}
@@ -179,6 +187,9 @@ def verify(families, kinds, functions=None, tier="quick", jobs=16, skip=()):
                 if fn in skip:
                     continue
                 if hasattr(cls, "applies") and not cls.applies(tu, fn):
+                    if functions is not None:
+                        # explicitly requested and nothing to check: never a silent pass
+                        work.append((fam, kind, fn, timeout, "inapplicable"))
                     continue
                 work.append((fam, kind, fn, timeout))
     obligations, functions_ok, errors, havocs = [], [], [], {}
@@ -186,8 +197,9 @@ def verify(families, kinds, functions=None, tier="quick", jobs=16, skip=()):
     real = [w for w in work if len(w) == 4]
     for w in work:
         if len(w) == 5:
-            obligations.append(Obligation("cvc", w[2], "%s:%s:engine" % (w[1], w[2]), "error",
-                                          detail="function %s not found in _%sBTree.c (renamed or deleted?)" % (w[2], w[0])))
+            why = ("function %s not found in _%sBTree.c (renamed or deleted?)" % (w[2], w[0])) if w[4] == "missing" \
+                else ("%s found nothing to check in %s of _%sBTree.c (shape of the code changed?)" % (w[1], w[2], w[0]))
+            obligations.append(Obligation("cvc", w[2], "%s:%s:engine" % (w[1], w[2]), "error", detail=why))
     ctx = multiprocessing.get_context("fork")
     with cf.ProcessPoolExecutor(max_workers=min(jobs, max(1, len(real))), mp_context=ctx) as ex:
         results = list(ex.map(_work, real, chunksize=4))
